@@ -892,3 +892,44 @@ func vnNewTriangle(t testing.TB, v cert.Version, curve cert.Curve, extra m) *vnT
 	nw.Settle()
 	return tr
 }
+
+// vnMesh: one lighthouse L plus n ordinary peers that learn about each other only through L.
+type vnMesh struct {
+	NW    *vnNet
+	CA    *vnCA
+	L     *vnNode
+	Peers []*vnNode
+}
+
+func vnNewMesh(t testing.TB, v cert.Version, curve cert.Curve, n int, extra m) *vnMesh {
+	ca := vnNewCA(v, curve)
+	nw := vnNewNet(t)
+	vs := []cert.Version{v}
+	lhOver := m{"lighthouse": m{"am_lighthouse": true}}
+	if extra != nil {
+		lhOver = vnMerge(lhOver, extra)
+	}
+	ms := &vnMesh{NW: nw, CA: ca}
+	idl := ca.issue(vs, "lh", "10.1.0.100/16", "", []string{"lh"})
+	ms.L = nw.AddNode(idl, []*vnCA{ca}, "192.0.2.100:4242", lhOver)
+	for i := 0; i < n; i++ {
+		id := ca.issue(vs, fmt.Sprintf("p%d", i+1), fmt.Sprintf("10.1.0.%d/16", i+1), "", []string{"peers"})
+		over := m{
+			"lighthouse":      m{"hosts": []string{idl.Addr().String()}, "interval": 5},
+			"static_host_map": m{idl.Addr().String(): []string{ms.L.Addr.String()}},
+		}
+		if extra != nil {
+			over = vnMerge(over, extra)
+		}
+		p := nw.AddNode(id, []*vnCA{ca}, fmt.Sprintf("192.0.2.%d:4242", i+1), over)
+		addr := p.Addr.Addr()
+		p.C.SetLocalAddrsFn(func(*LocalAllowList) []netip.Addr { return []netip.Addr{addr} })
+		ms.Peers = append(ms.Peers, p)
+	}
+	ms.L.Start()
+	for _, p := range ms.Peers {
+		p.Start()
+	}
+	nw.Settle()
+	return ms
+}
